@@ -48,6 +48,9 @@ def gen_case(rng, idx):
         t = len(losses)
 
         def mk_call():
+            if rng.random() < 0.2:      # a heads-only update: explicit empty shared_params
+                return ("mtl", {"losses": losses, "features": feats, "tasks": tasks, "shared": [],
+                                "k": rng.choice([None, 1, 2]), "retain": True, "agg": ajcheck.rand_agg(rng, t, 0.8)})
             return ("mtl", {"losses": losses, "features": feats, "tasks": tasks, "shared": shared,
                             "k": rng.choice([None, 1, 2]), "retain": True, "agg": ajcheck.rand_agg(rng, t, 0.8)})
     hist = []
